@@ -113,6 +113,41 @@ def run_bindings(chk, n):
         rc.classify(chk, "bindings", p, real, rep, sp, REGIONS)
 
 
+def gen_loops(r):
+    """directed: a component tag under two or three nested {% for %} loops written in *another component's template* (so
+    the instance is queued and rendered after the loops have finished), whose own template — and, under the tag, fill
+    content — reads the loop state through `forloop` / `forloop.parentloop` / `forloop.parentloop.parentloop`: what
+    prints is the state at the tag, not the state the loops have reached later (seeded/C03-4: the outermost loop's
+    dict stayed shared with the running loop)."""
+    T, V, L = tplgen.lit, tplgen.var, (lambda s: {"t": "text", "s": s})
+    depth = r.choice([2, 2, 3])
+    chain = [["forloop", "counter"], ["forloop", "parentloop", "counter"], ["forloop", "parentloop", "parentloop", "counter"]][:depth]
+    show = lambda tag: [L(tag)] + [nd for c in chain for nd in ({"t": "out", "e": V(*c)}, L("."))]
+    c1 = {"name": "c1", "data": [], "template": [L("[")] + show("T") + [
+        {"t": "slot", "name": T("s1"), "default": False, "required": False, "data": [], "body": show("D")}, L("]")]}
+    body = [{"t": "fill", "name": T("s1"), "data": None, "dflt": None, "body": show("F")}] if r.random() < 0.3 else []
+    node = [{"t": "comp", "name": "c1", "kwargs": [], "only": False, "dyn": False, "body": body}, L("|")]
+    lists = ["xs", "ys", "zs"]
+    for j in range(depth):
+        node = [{"t": "for", "x": "v%d" % j, "e": V(lists[j]), "body": node}]
+    c0 = {"name": "c0", "data": [[l, {"kwarg": l}] for l in lists], "template": [L("(")] + node + [L(")")]}
+    page = [{"t": "comp", "name": "c0", "kwargs": [[l, V(l)] for l in lists], "only": False, "dyn": False, "body": []}]
+    ctx = [[l, {"l": [tplgen.sval(w) for w in r.sample(tplgen.WORDS, r.randint(2, 3))]}] for l in lists]
+    return {"isolated": r.random() < 0.4, "lib": [c0, c1], "entry": {"page": page}, "ctx": ctx, "raise": None}
+
+
+def run_loops(chk, n):
+    progs = [gen_loops(core.rng(PROP, "loops", i)) for i in range(n)]
+    reps = rc.batch(progs)
+    for p, (rep, sp) in zip(progs, reps):
+        real = tplgen.run_real(p, limit=20.0)
+        chk.count("loops", 1, validated=1)
+        chk.errkind(real["err"] or "ok")
+        chk.nontrivial(("loops", real["out"] or real["err"]))
+        chk.branch(["loops:mode:" + ("isolated" if p["isolated"] else "django")])
+        rc.classify(chk, "loops", p, real, rep, sp, REGIONS)
+
+
 def run_noninterference(chk, n):
     for i in range(n):
         r = core.rng(PROP, "noninterference", i)
@@ -159,6 +194,7 @@ def run(tier: str) -> int:
     n = 600 if tier == "quick" else 12000
     run_programs(chk, n)
     run_bindings(chk, n // 2)
+    run_loops(chk, 30 if tier == "quick" else 400)
     run_noninterference(chk, n // 3)
     chk.assumptions += [
         "names from a pool of eight so that collisions are common; values str / list[str] / dict",
